@@ -85,7 +85,12 @@ func Decode(bech string) (string, []byte, error) {
 func Encode(hrp string, data []byte) (string, error) {
 	// Calculate the checksum of the data and append it at the end.
 	checksum := bech32Checksum(hrp, data)
-	combined := append(data, checksum...)
+	// Build the combined slice in fresh memory: appending to data directly
+	// would write the checksum into the caller's backing array whenever
+	// data has spare capacity.
+	combined := make([]byte, 0, len(data)+len(checksum))
+	combined = append(combined, data...)
+	combined = append(combined, checksum...)
 
 	// The resulting bech32 string is the concatenation of the hrp, the
 	// separator 1, data and checksum. Everything after the separator is
